@@ -138,7 +138,7 @@ Record dinv (c : config) (d : dstate) : Prop := {
   di_val : forall x, tracked s x = true -> d_val d x = done_val d x;
   di_nodup : NoDup (d_order d);
   di_front : forall o j i, d_order d = o ++ [j] -> In i o -> nwrites s (code_of c i) = 0;
-  di_inorder : forall i, In i (d_order d) -> i < length c /\ i <> g /\ d_hist d i <> [];
+  di_inorder : forall i, In i (d_order d) -> i < length c /\ i <> g /\ 0 < nwrites s (d_hist d i);
   di_w : forall i, i <> g ->
          wdisc s (memn i (d_order d)) (held_of c i) (code_of c i) = true /\
          (memn i (d_order d) = true -> 0 < nwrites s (code_of c i) -> holds_w (LSeg s) (held_of c i) = true) /\
@@ -252,7 +252,7 @@ Proof.
     + rewrite (proj1 (FO k Hne)). eauto.
   - intros k Hk. destruct (di_inorder0 k Hk) as [A [B C]]. split; [lia|]. split; auto.
     destruct (Nat.eq_dec k i) as [->|Hne].
-    + rewrite upd_hist_same. intro E. apply app_eq_nil in E as [_ E]. discriminate.
+    + rewrite upd_hist_same, nwrites_app. lia.
     + rewrite upd_hist_other; auto.
   - intros j Hj. destruct (di_w0 j Hj) as [W1 [W2 W3]]. destruct (Nat.eq_dec j i) as [->|Hne].
     + rewrite F2, F3, upd_hist_same. rewrite F1 in W1, W2. split; [|split].
@@ -391,7 +391,7 @@ Proof.
     assert (Hcases : In k (d_order d) \/ k = i).
     { destruct (memn i (d_order d)); auto. apply in_app_or in Hk as [Hk | [<- | []]]; auto. }
     destruct (Nat.eq_dec k i) as [->|Hne].
-    + split; [lia|]. split; auto. rewrite upd_hist_same. intro E. apply app_eq_nil in E as [_ E]. discriminate.
+    + split; [lia|]. split; auto. rewrite upd_hist_same, nwrites_app. cbn [nwrites is_twrite]. rewrite Hx. lia.
     + destruct Hcases as [Hin | ->]; [|contradiction].
       destruct (di_inorder0 k Hin) as [A [B C]]. split; [lia|]. split; auto. rewrite upd_hist_other; auto.
   - intros j Hj. destruct (Nat.eq_dec j i) as [->|Hne].
@@ -497,7 +497,7 @@ Proof.
         destruct (di_w0 i Hig) as [_ [_ W3]]. specialize (W3 M).
         rewrite (di_hist0 i), Hc, app_nil_r, W3 in Hnw. lia.
       * intros i Hi. destruct (di_inorder0 i Hi) as [A [_ Cc]].
-        apply filter_In. split; [apply in_seq; lia|]. destruct (d_hist d i); [contradiction | reflexivity].
+        apply filter_In. split; [apply in_seq; lia|]. destruct (d_hist d i); [cbn in Cc; lia | reflexivity].
 Qed.
 
 Lemma dinv_step : forall c d i c' d',
@@ -580,6 +580,15 @@ Proof.
   - split; [exists rest; exact A|]. split; auto.
 Qed.
 
+(* only writers of the series are ever in the section order: S consists of threads that write tracked locations of s *)
+Theorem order_only_writers : forall sched i,
+  In i (d_order (snd (drun s g sched ts))) -> i <> g /\ 0 < nwrites s (nth i ts []).
+Proof.
+  intros sched i Hi. pose proof (dinv_reachable sched) as D. destruct D.
+  destruct (di_inorder0 i Hi) as [_ [Hg Hn]]. split; auto.
+  fold (init_of i). rewrite (di_hist0 i), nwrites_app. lia.
+Qed.
+
 (* nothing is observed without the snapshot: the theorem above covers every observation *)
 Theorem no_observation_without_snapshot : forall sched,
   d_snap (snd (drun s g sched ts)) = None -> d_obs (snd (drun s g sched ts)) = [].
@@ -595,8 +604,9 @@ Proof.
   intros s trees h tail Hh. induction trees as [|t trees IH]; [reflexivity|].
   cbn [flat_map]. unfold locked at 1. cbn [app]. rewrite <- ?app_assoc. cbn [app].
   cbn [wdisc is_twrite tracked apply_held orb andb lock_eqb].
-  rewrite holds_w_cons, Hh, orb_true_r. cbn [andb].
-  rewrite remove_held_head. exact IH.
+  rewrite holds_w_cons, Hh, orb_true_r.
+  destruct (Nat.eqb (tree_series t) s); cbn [andb];
+  rewrite remove_held_head; exact IH.
 Qed.
 
 Lemma put_core_wdisc : forall s trees, wdisc s false [] (put_core s trees) = true.
@@ -615,8 +625,9 @@ Proof.
   intros s trees h tail Hh. induction trees as [|t trees IH]; [reflexivity|].
   cbn [flat_map]. unfold locked at 1. cbn [app]. rewrite <- ?app_assoc. cbn [app].
   cbn [rdisc is_twrite is_tread tracked apply_held orb andb negb lock_eqb].
-  rewrite holds_cons, Hh, orb_true_r. cbn [andb].
-  rewrite remove_held_head. exact IH.
+  rewrite holds_cons, Hh, orb_true_r.
+  destruct (Nat.eqb (tree_series t) s); cbn [andb];
+  rewrite remove_held_head; exact IH.
 Qed.
 
 Lemma get_core_rdisc : forall s trees, rdisc s false [] (get_core s trees) = true.
@@ -674,7 +685,7 @@ Proof. repeat split; reflexivity. Qed.
 (* non-vacuity: two ingests and a render, a schedule in which the render's read section falls between them *)
 Example fine_nonvacuous :
   let r := drun 0 2 [0;0;0;0;0;0; 2;2; 1;1;1; 0;0;0;0;0;0;0;0;0;0;0;0; 2;2;2;2; 1;1;1;1;1;1;1;1;1;1; 2;2;2;2;2;2;2;2;2;2;2]
-                (core_threads 0 [[1; 2]; [2]] [1; 2]) in
-  d_obs (snd r) = [(LocTree 2, [0]); (LocTree 1, [0]); (LocSegTree 0, [0]); (LocSegTree 0, [0])] /\
+                (core_threads 0 [[2; 4]; [4]] [2; 4]) in
+  d_obs (snd r) = [(LocTree 4, [0]); (LocTree 2, [0]); (LocSegTree 0, [0]); (LocSegTree 0, [0])] /\
   d_snap (snd r) = Some ([0], [0], [0; 2]).
 Proof. vm_compute. split; reflexivity. Qed.
